@@ -122,11 +122,11 @@ def run(ctx):
         ctx.extra["poser_configs_replayed"] = len(keep)
         lines = keep
     else:
-        # 4 setups by simulation
-        consts4 = {"MaxSetups": 4, "MaxAlgs": 2, "Types": {1, 2, 3}, "MaxNames": 3}
+        # 4 setups, one algorithm each, three types: exhaustive (4 setups x 2 algorithms would exceed TLC's set-size limit)
+        consts4 = {"MaxSetups": 4, "MaxAlgs": 1, "Types": {1, 2, 3}, "MaxNames": 2}
         mod4, cfg4 = ctx.model("Poser", "ctor4", consts4, invariants=["BuiltOnlyIfValid", "RejectedOnlyIfInvalid"],
                                action_constraints=["Emit"], view="View")
-        r4 = ctx.tlc(mod4, cfg4, raw=True, simulate="num=60000", depth=2, seed=ctx.seed, workers=4)
+        r4 = ctx.tlc(mod4, cfg4, raw=True)
         lines = lines + r4.transitions
     chunks = list(core.chunks(lines, max(1, len(lines) // 64)))
     with mp.get_context("fork").Pool(16) as pool:
